@@ -44,6 +44,11 @@ type Sess struct {
 	Kind    string `json:"kind"`    // EcdsaKeygen FrostKeygen EcdsaResharing FrostResharing EcdsaSigning FrostSigning
 	Outcome string `json:"outcome"` // NeverSilent NeverTimeout NeverCancelled StartMalformed ParamsRejected RanFailed RanSucceeded Refused
 	Role    string `json:"role"`    // coord | peer (this relayer's role in the session)
+	// Share: the state the key-share file of the process's store is put in before the constructor
+	// runs: "" readable | missing | corrupt | unreadable
+	Share string `json:"share,omitempty"`
+	// Tweak (FROST signing): "" a valid tweak | nothex | short
+	Tweak string `json:"tweak,omitempty"`
 }
 
 type Case struct {
@@ -53,7 +58,7 @@ type Case struct {
 
 type Obs struct {
 	Ledger []string `json:"ledger"`
-	Real   int      `json:"real"` // 0 not replayed, 1 completed + lock free, 2 fatal unlock, 3 lock not free
+	Real   int      `json:"real"` // 0 not replayed, 1 completed + lock free, 2 fatal unlock, 3 lock not free (a constructor or the final probe blocked)
 	Note   string   `json:"note,omitempty"`
 }
 
@@ -91,6 +96,58 @@ type party struct {
 	c    *tss.Coordinator
 	es   ecdsaStore
 	fs   frostStore
+	real bool
+	// the party's own copies of the key-share fixtures (the files behind es / fs)
+	dir          string
+	epath, fpath string
+}
+
+func (p *party) cleanup() {
+	if p.dir != "" {
+		os.RemoveAll(p.dir)
+	}
+}
+
+// setShare puts the key-share file at path into the given state.
+func setShare(path, fixturePath, state string) {
+	os.RemoveAll(path)
+	switch state {
+	case "":
+		copyFile(fixturePath, path)
+	case "missing":
+	case "corrupt":
+		// the beginning of the real file, cut in the middle of the JSON document
+		b, err := os.ReadFile(fixturePath)
+		if err != nil {
+			panic(err)
+		}
+		if err := os.WriteFile(path, b[:len(b)/3], 0o600); err != nil {
+			panic(err)
+		}
+	case "unreadable":
+		// reading fails with something else than "no such file"; (file modes do not stop root, a
+		// directory in the file's place stops everybody)
+		if err := os.Mkdir(path, 0o700); err != nil {
+			panic(err)
+		}
+	default:
+		panic("share state " + state)
+	}
+}
+
+func frostKind(kind string) bool { return strings.HasPrefix(kind, "Frost") }
+
+// prepare puts the key-share file of the store the session's process uses into the state asked for
+// (and the other one back to readable).
+func (p *party) prepare(s Sess) {
+	es, fs := "", ""
+	if frostKind(s.Kind) {
+		fs = s.Share
+	} else {
+		es = s.Share
+	}
+	setShare(p.epath, fixture(p.idx, false), es)
+	setShare(p.fpath, fixture(p.idx, true), fs)
 }
 
 func fixture(i int, frost bool) string {
@@ -101,19 +158,20 @@ func fixture(i int, frost bool) string {
 	return filepath.Join(repo, "tss", "test", "keyshares", n)
 }
 
-func copyTemp(src string) string {
-	f, err := os.CreateTemp("", "c10share")
-	if err != nil {
-		panic(err)
-	}
+func copyFile(src, dst string) {
 	in, err := os.Open(src)
 	if err != nil {
 		panic(err)
 	}
-	io.Copy(f, in)
-	in.Close()
+	defer in.Close()
+	f, err := os.OpenFile(dst, os.O_CREATE|os.O_WRONLY|os.O_TRUNC, 0o600)
+	if err != nil {
+		panic(err)
+	}
+	if _, err := io.Copy(f, in); err != nil {
+		panic(err)
+	}
 	f.Close()
-	return f.Name()
 }
 
 func newParty(i int, hub *tssfakes.Hub, real bool) *party {
@@ -126,23 +184,24 @@ func newParty(i int, hub *tssfakes.Hub, real bool) *party {
 	ef := elector.NewCoordinatorElectorFactory(p.host, relayer.BullyConfig{})
 	p.c = tss.NewCoordinator(p.host, p.comm, ef)
 	p.c.CoordinatorTimeout, p.c.TssTimeout, p.c.InitiatePeriod = long, long, long
+	var err error
+	if p.dir, err = os.MkdirTemp("", "c10shares"); err != nil {
+		panic(err)
+	}
+	p.epath, p.fpath = filepath.Join(p.dir, "ecdsa.keyshare"), filepath.Join(p.dir, "frost.keyshare")
+	copyFile(fixture(i, false), p.epath)
+	copyFile(fixture(i, true), p.fpath)
+	p.real = real
 	if real {
-		p.es = keyshare.NewECDSAKeyshareStore(copyTemp(fixture(i, false)))
-		p.fs = keyshare.NewFrostKeyshareStore(copyTemp(fixture(i, true)))
+		p.es = keyshare.NewECDSAKeyshareStore(p.epath)
+		p.fs = keyshare.NewFrostKeyshareStore(p.fpath)
 		return p
 	}
+	// the counting stores replace only the mutex: the share is really read from the party's file
 	es := tssfakes.NewCountingECDSAStorer(p.led)
-	ek, err := keyshare.NewECDSAKeyshareStore(fixture(i, false)).GetKeyshare()
-	if err != nil {
-		panic(err)
-	}
-	es.Key = ek
+	es.File = keyshare.NewECDSAKeyshareStore(p.epath)
 	fs := tssfakes.NewCountingFrostStorer(p.led)
-	fk, err := keyshare.NewFrostKeyshareStore(fixture(i, true)).GetKeyshare()
-	if err != nil {
-		panic(err)
-	}
-	fs.Key = fk
+	fs.File = keyshare.NewFrostKeyshareStore(p.fpath)
 	p.es, p.fs = es, fs
 	return p
 }
@@ -179,7 +238,16 @@ func (w *wrapped) Run(ctx context.Context, coordinator bool, resultChn chan inte
 
 const tweak = "c82aa6ae534bb28aaafeb3660c31d6a52e187d8f05d48bb6bdb9b733a9b42212"
 
-func (p *party) mk(kind, sid string, threshold int) (tss.TssProcess, error) {
+func (p *party) mk(kind, sid string, threshold int, tweaks ...string) (tss.TssProcess, error) {
+	tweak := tweak
+	if len(tweaks) > 0 {
+		switch tweaks[0] {
+		case "nothex":
+			tweak = "this is not hex"
+		case "short":
+			tweak = "c82aa6ae534bb28a"
+		}
+	}
 	var proc tss.TssProcess
 	var err error
 	switch kind {
@@ -238,7 +306,16 @@ func goodParams(kind string, coordinator peer.ID) []byte {
 		b, _ := json.Marshal(map[string]interface{}{"oldThreshold": 1, "oldSubset": ids})
 		return b
 	case "FrostResharing":
-		return []byte("{}")
+		// what a coordinator that holds a share sends (Resharing.StartParams): the public key and the
+		// verification shares.  (A relayer WITHOUT a share that is sent "{}" instead panics in Run with
+		// "assignment to entry in nil map", resharing.go:113 - an input validation matter outside this
+		// property; the harness sends what a real coordinator sends.)
+		k, err := keyshare.NewFrostKeyshareStore(fixture(1, true)).GetKeyshare()
+		if err != nil {
+			panic(err)
+		}
+		b, _ := json.Marshal(map[string]interface{}{"PublicKey": k.Key.PublicKey, "VerificationShares": k.Key.VerificationShares})
+		return b
 	case "EcdsaSigning", "FrostSigning":
 		b, _ := json.Marshal([]peer.ID{ids[0], coordinator})
 		return b
@@ -253,15 +330,57 @@ func badParams(kind string) []byte {
 	return []byte("x")
 }
 
+// errHeld: a constructor did not come back - it waits for a key-share mutex that is still held.
+var errHeld = fmt.Errorf("constructor blocked on the key-share lock")
+
+// construct runs the real constructor; on the real stores (child process) with a bounded wait,
+// because a constructor blocks for ever on a mutex a predecessor leaked.
+func (p *party) construct(s Sess, sid string, threshold int) (tss.TssProcess, error) {
+	if !p.real {
+		return p.mk(s.Kind, sid, threshold, s.Tweak)
+	}
+	type res struct {
+		proc tss.TssProcess
+		err  error
+	}
+	ch := make(chan res, 1)
+	go func() {
+		proc, err := p.mk(s.Kind, sid, threshold, s.Tweak)
+		ch <- res{proc, err}
+	}()
+	select {
+	case r := <-ch:
+		return r.proc, r.err
+	case <-time.After(5 * time.Second):
+		return nil, errHeld
+	}
+}
+
 // session drives one session of party p (the other relayers are played by the harness).
 func (p *party) session(s Sess) string {
+	if s.Share != "" && resharing(s.Kind) {
+		s.Role = "peer" // see rolesIn
+	}
 	sid, coordinator := pickSid(s.Kind, s.Role)
 	p.c.CoordinatorTimeout, p.c.TssTimeout, p.c.InitiatePeriod = long, long, long
 	p.answerInitiate(true)
+	p.prepare(s)
 	threshold := 1
 	ctx, cancel := context.WithCancel(context.Background())
 	defer cancel()
 	note := ""
+
+	if s.Outcome == "ConstructorFails" {
+		_, err := p.construct(s, sid, threshold)
+		switch {
+		case err == errHeld:
+			fmt.Println("REAL_HELD")
+			os.Exit(0)
+		case err == nil:
+			return "the constructor did not fail; "
+		}
+		return ""
+	}
 
 	var blocker *tssfakes.RecProcess
 	var blockerDone chan error
@@ -272,7 +391,7 @@ func (p *party) session(s Sess) string {
 		go func() {
 			blockerDone <- p.c.Execute(context.Background(), []tss.TssProcess{blocker}, make(chan interface{}, 1))
 		}()
-		if !tssfakes.WaitFor(20*time.Second, func() bool { return blocker.Runs() > 0 }) {
+		if !tssfakes.WaitP("the blocking session to start", func() bool { return blocker.Runs() > 0 }) {
 			note += "blocker did not start; "
 		}
 	}
@@ -294,15 +413,22 @@ func (p *party) session(s Sess) string {
 			threshold = 3 // not below the number of parties: the protocol library rejects it inside Run
 		}
 	}
-	proc, err := p.mk(s.Kind, sid, threshold)
+	proc, err := p.construct(s, sid, threshold)
+	if err == errHeld {
+		fmt.Println("REAL_HELD")
+		os.Exit(0)
+	}
 	if err != nil {
 		return note + "constructor failed: " + err.Error()
 	}
 	done := make(chan error, 1)
 	go func() { done <- p.c.Execute(ctx, []tss.TssProcess{proc}, make(chan interface{}, 4)) }()
 
+	subscribed := func(mt comm.MessageType) {
+		tssfakes.WaitP("Execute to subscribe", func() bool { return p.comm.Subscribers(sid, mt) >= 1 })
+	}
 	deliverStart := func(payload []byte) {
-		p.comm.WaitSubscribed(sid, comm.TssStartMsg, 1, 20*time.Second)
+		subscribed(comm.TssStartMsg)
 		p.comm.Deliver(sid, comm.TssStartMsg, coordinator, payload)
 	}
 	startMsg := func(params []byte) []byte {
@@ -312,11 +438,11 @@ func (p *party) session(s Sess) string {
 	switch s.Outcome {
 	case "NeverCancelled":
 		if s.Role == "coord" {
-			p.comm.WaitSubscribed(sid, comm.TssReadyMsg, 1, 20*time.Second)
+			subscribed(comm.TssReadyMsg)
 		} else {
-			p.comm.WaitSubscribed(sid, comm.TssStartMsg, 1, 20*time.Second)
+			subscribed(comm.TssStartMsg)
 		}
-		p.comm.WaitSubscribed(sid, comm.TssFailMsg, 1, 20*time.Second)
+		subscribed(comm.TssFailMsg)
 		cancel()
 	case "StartMalformed":
 		deliverStart([]byte("\x00 not a start message"))
@@ -332,16 +458,12 @@ func (p *party) session(s Sess) string {
 			deliverStart(startMsg(params))
 		}
 	}
-	select {
-	case <-done:
-	case <-time.After(90 * time.Second):
+	if _, ok := tssfakes.RecvP("Execute to return", done); !ok {
 		note += "Execute did not return; "
 	}
 	if blocker != nil {
 		blocker.Release()
-		select {
-		case <-blockerDone:
-		case <-time.After(20 * time.Second):
+		if _, ok := tssfakes.RecvP("the blocking session to return", blockerDone); !ok {
 			note += "blocker stuck; "
 		}
 	}
@@ -350,11 +472,17 @@ func (p *party) session(s Sess) string {
 
 // ---- ran and succeeded: three real parties in one process ------------------------------------------
 
+// succeedDeadline bounds a complete three-party run (set by the generator: the quick tier runs
+// nothing slower than the FROST protocols with their ten second start-up pause; the thorough tier
+// runs the ECDSA keygen with its safe prime generation).
+var succeedDeadline = 25 * time.Minute
+
 func succeed(kind string) (*tssfakes.Ledger, string) {
 	hub := tssfakes.NewHub()
 	ps := make([]*party, 3)
 	for i := range ps {
 		ps[i] = newParty(i, hub, false)
+		defer ps[i].cleanup()
 		ps[i].c.InitiatePeriod = 100 * time.Millisecond
 	}
 	sid := fmt.Sprintf("c10ok%s%d", kind, sidCtr.Add(1))
@@ -384,11 +512,11 @@ func succeed(kind string) (*tssfakes.Ledger, string) {
 		}
 		i := i
 		go func() { done <- ps[i].c.Execute(ctx, []tss.TssProcess{proc}, res) }()
-		if ids[i] != coordinator && !ps[i].comm.WaitSubscribed(sid, comm.TssStartMsg, 1, 30*time.Second) {
+		if ids[i] != coordinator && !ps[i].comm.WaitSubscribed(sid, comm.TssStartMsg, 1, tssfakes.Patience()) {
 			note += "party did not subscribe; "
 		}
 	}
-	deadline := time.After(20 * time.Minute)
+	deadline := time.After(succeedDeadline)
 	if kind == "EcdsaSigning" || kind == "FrostSigning" {
 		// threshold+1 = 2 relayers sign; the third one keeps waiting for a possible retry, so the
 		// caller ends the sessions once both signers have reported their result
@@ -467,15 +595,23 @@ func run(c Case) Obs {
 		return succeedFuture(c.Sessions[0].Kind)
 	}
 	p := newParty(0, nil, false)
+	defer p.cleanup()
 	for _, s := range c.Sessions {
 		o.Note += p.session(s)
 	}
 	o.Ledger = lockEvents(p.led)
-	if c.Real {
+	if c.Real && heldReplays < 4 {
+		// (after a few replays that ended with the real mutex held the point is made: each of them
+		// costs seconds of waiting for a lock that does not come back)
 		o.Real, o.Note = realReplay(c, o.Note)
+		if o.Real == 3 {
+			heldReplays++
+		}
 	}
 	return o
 }
+
+var heldReplays int
 
 // realReplay runs the same sessions in a child process on the real (sync.Mutex) stores.
 func realReplay(c Case, note string) (int, string) {
@@ -491,8 +627,8 @@ func realReplay(c Case, note string) (int, string) {
 	go func() { out, err = cmd.CombinedOutput(); close(done) }()
 	select {
 	case <-done:
-	case <-time.After(30 * time.Second):
-		// e.g. a constructor waiting for ever for the leaked real mutex
+	case <-time.After(60 * time.Second):
+		// (the child bounds its own waits; this is the last resort)
 		_ = cmd.Process.Kill()
 		<-done
 		return 3, note
@@ -518,10 +654,11 @@ func child(js string) {
 		panic(err)
 	}
 	p := newParty(0, nil, true)
+	defer p.cleanup()
+	tssfakes.MaxExpiries = 1 << 30 // (the parent bounds the child as a whole)
 	go func() {
-		// a session that cannot even be constructed because the real mutex is still held
-		time.Sleep(15 * time.Second)
-		fmt.Println("REAL_HELD")
+		time.Sleep(50 * time.Second)
+		fmt.Println("CHILD_TIMEOUT")
 		os.Exit(0)
 	}()
 	for _, s := range c.Sessions {
@@ -549,8 +686,14 @@ func child(js string) {
 
 var kinds = []string{"EcdsaKeygen", "FrostKeygen", "EcdsaResharing", "FrostResharing", "EcdsaSigning", "FrostSigning"}
 var cheap = []string{"NeverSilent", "NeverTimeout", "NeverCancelled", "StartMalformed", "ParamsRejected", "RanFailed", "Refused"}
+var badShares = []string{"missing", "corrupt", "unreadable"}
+
+func signing(kind string) bool { return kind == "EcdsaSigning" || kind == "FrostSigning" }
 
 func feasible(kind, outcome string) bool {
+	if outcome == "ConstructorFails" {
+		return signing(kind)
+	}
 	return !(outcome == "ParamsRejected" && (kind == "EcdsaKeygen" || kind == "FrostKeygen"))
 }
 
@@ -564,8 +707,20 @@ func slow(kind, outcome string) bool {
 	return false
 }
 
+func resharing(kind string) bool { return kind == "EcdsaResharing" || kind == "FrostResharing" }
+
+// rolesIn: the roles this relayer can have in a session that finds its share file in state sh.
+// A resharing process without a readable share goes on with an empty one, which names no valid
+// coordinators: such a relayer is never the coordinator (it waits for anybody's start message).
+func rolesIn(kind, outcome, sh string) []string {
+	if sh != "" && resharing(kind) && outcome != "Refused" {
+		return []string{"peer"}
+	}
+	return roles(kind, outcome)
+}
+
 func roles(kind, outcome string) []string {
-	if outcome == "RanFailed" && (kind == "EcdsaSigning" || kind == "FrostSigning") {
+	if outcome == "RanFailed" && signing(kind) {
 		return []string{"peer"} // as coordinator a signing process computes a valid committee itself
 	}
 	switch outcome {
@@ -573,7 +728,7 @@ func roles(kind, outcome string) []string {
 		return []string{"peer"}
 	case "RanFailed":
 		return []string{"peer", "coord"}
-	case "Refused":
+	case "Refused", "ConstructorFails":
 		return []string{"coord"}
 	}
 	return []string{"coord", "peer"}
@@ -581,6 +736,12 @@ func roles(kind, outcome string) []string {
 
 func gen(r *vgen.Rng, tier string) []Case {
 	var out []Case
+	if tier == "thorough" {
+		tssfakes.StartWatchdog("c10", 90*time.Minute)
+	} else {
+		succeedDeadline = 90 * time.Second
+		tssfakes.StartWatchdog("c10", 4*time.Minute)
+	}
 	for _, k := range kinds {
 		for _, oc := range append(append([]string{}, cheap...), "RanSucceeded") {
 			if !feasible(k, oc) {
@@ -601,6 +762,32 @@ func gen(r *vgen.Rng, tier string) []Case {
 			}
 		}
 	}
+	// the constructor meets a key-share file that cannot be read (missing, corrupt, unreadable):
+	// the signing constructors fail; resharing goes on with an empty share and keygen does not
+	// read it, so their sessions take every usual course
+	for _, k := range kinds {
+		for i, sh := range badShares {
+			if signing(k) {
+				out = append(out, Case{Sessions: []Sess{{Kind: k, Outcome: "ConstructorFails", Role: "coord", Share: sh}}, Real: true})
+				continue
+			}
+			for j, oc := range cheap {
+				if !feasible(k, oc) {
+					continue
+				}
+				// every outcome with the missing file; two each with the others (all in the thorough tier)
+				if tier != "thorough" && i > 0 && (i+j)%3 != 0 {
+					continue
+				}
+				role := vgen.Pick(r, rolesIn(k, oc, sh))
+				out = append(out, Case{Sessions: []Sess{{Kind: k, Outcome: oc, Role: role, Share: sh}}, Real: j%2 == 0})
+			}
+		}
+	}
+	// FROST signing: a readable share and a tweak that cannot be decoded
+	for _, tw := range []string{"nothex", "short"} {
+		out = append(out, Case{Sessions: []Sess{{Kind: "FrostSigning", Outcome: "ConstructorFails", Role: "coord", Tweak: tw}}, Real: true})
+	}
 	nseq := 40
 	if tier == "thorough" {
 		nseq = 600
@@ -609,14 +796,34 @@ func gen(r *vgen.Rng, tier string) []Case {
 		var ss []Sess
 		for n := r.Range(2, 7); len(ss) < n; {
 			k, oc := vgen.Pick(r, kinds), vgen.Pick(r, cheap)
+			sh := ""
+			if r.Intn(3) == 0 {
+				sh = vgen.Pick(r, badShares)
+				if signing(k) {
+					oc = "ConstructorFails"
+				}
+			}
 			if !feasible(k, oc) || slow(k, oc) {
 				continue
 			}
-			ss = append(ss, Sess{Kind: k, Outcome: oc, Role: vgen.Pick(r, roles(k, oc))})
+			ss = append(ss, Sess{Kind: k, Outcome: oc, Role: vgen.Pick(r, rolesIn(k, oc, sh)), Share: sh})
 		}
-		out = append(out, Case{Sessions: ss})
+		// every fifth sequence is replayed on the real stores
+		out = append(out, Case{Sessions: ss, Real: i%5 == 0})
 	}
 	return out
+}
+
+func shareName(s string) string {
+	switch s {
+	case "missing":
+		return "Missing"
+	case "corrupt":
+		return "Corrupt"
+	case "unreadable":
+		return "Unreadable"
+	}
+	return "Readable"
 }
 
 func coq(c Case, o Obs) string {
@@ -629,14 +836,28 @@ func coq(c Case, o Obs) string {
 	}
 	if len(c.Sessions) == 1 {
 		s := c.Sessions[0]
-		return "Session " + s.Kind + " " + s.Outcome + " " + led + " " + vgen.Nat(o.Real)
+		return "Session " + s.Kind + " " + s.Outcome + " " + shareName(s.Share) + " " + led + " " + vgen.Nat(o.Real)
 	}
-	return "Sequence " + vgen.ListOf(c.Sessions, func(s Sess) string { return vgen.Pair(s.Kind, s.Outcome) }) + " " + led
+	return "Sequence " + vgen.ListOf(c.Sessions, func(s Sess) string {
+		return vgen.Pair(shareName(s.Share), vgen.Pair(s.Kind, s.Outcome))
+	}) + " " + led + " " + vgen.Nat(o.Real)
 }
 
 func kindOf(c Case) string {
 	if len(c.Sessions) == 1 {
-		return c.Sessions[0].Kind + "/" + c.Sessions[0].Outcome
+		k := c.Sessions[0].Kind + "/" + c.Sessions[0].Outcome
+		if c.Sessions[0].Share != "" {
+			k += "/share-" + c.Sessions[0].Share
+		}
+		if c.Sessions[0].Tweak != "" {
+			k += "/tweak-" + c.Sessions[0].Tweak
+		}
+		return k
+	}
+	for _, s := range c.Sessions {
+		if s.Share != "" {
+			return "sequence/bad-shares"
+		}
 	}
 	return "sequence"
 }
@@ -660,6 +881,6 @@ func main() {
 		Coq:        coq,
 		Kind:       kindOf,
 		NonTrivial: func(c Case, o Obs) bool { return len(o.Ledger) > 0 || len(c.Sessions) > 0 },
-		Rule:       "every process kind x every feasible outcome x the roles in which it can arise, each on a fresh counting store (half of them replayed on the real sync.Mutex store in a child process), plus random sequences of 2..7 sessions on one store; distinct = distinct input JSON; every case is non-trivial (a real constructor and the real Execute run in each)",
+		Rule:       "every process kind x every feasible outcome x the roles in which it can arise, each on a fresh counting store (half of them replayed on the real sync.Mutex store in a child process); every kind x {missing, corrupt, unreadable key-share file}: the signing constructors fail, keygen/resharing sessions take their usual courses; FROST signing with undecodable tweaks; random sequences of 2..7 sessions on one store, a third of the sessions on an unreadable share file, every fifth sequence replayed on the real stores; distinct = distinct input JSON; every case is non-trivial (a real constructor and the real Execute run in each)",
 	})
 }
